@@ -290,10 +290,7 @@ class CallGraph(object):
         return seen
 
 
-_CG = {}
-
-
 def get_callgraph(prog):
-    if id(prog) not in _CG:
-        _CG[id(prog)] = CallGraph(prog)
-    return _CG[id(prog)]
+    if "callgraph" not in prog.cache:
+        prog.cache["callgraph"] = CallGraph(prog)
+    return prog.cache["callgraph"]
